@@ -9,19 +9,19 @@ VERIF = os.path.dirname(os.path.dirname(os.path.abspath(__file__)))
 # property -> (DESIGN.md section, technique, level text, trusted base)
 CHECKS = {
     "C01": ("5/C01", "model-based PBT: same function by many routes, == iff equal value tables",
-            "Generated multi-route programs (minterm order, operation chains, algebraic detours, copies through other forests, release/GC/handle reuse in between); after every step every pair of live edges of a forest must compare equal exactly when their independent value tables are equal; plus unique-table self-lookup and hash agreement of every node. Exploration: held on everything generated.",
+            "Generated multi-route programs (minterm order, operation chains incl. in-place results x += y, algebraic detours, copies through other forests, release/GC/handle reuse in between; variable sizes 1..20); after every step every pair of live edges of a forest must compare equal exactly when their independent value tables are equal; plus unique-table self-lookup and hash agreement of every node. Exploration: held on everything generated.",
             "value-table model; exact (grid) values for reals and EV*"),
     "C02": ("5/C02", "stateful PBT with a whole-forest structural audit after every API call",
-            "Random histories over all forest kinds, reduction rules and the 36 storage/memory/deletion policies; after every step each live node is audited against the documented reduction rules (duplicates, transparency, redundancy, quasi level skipping, identity singletons, child order/liveness, EV normalisation, full/sparse view and hash agreement, unique-table and node counts).",
+            "Random histories over all forest kinds, reduction rules and the 36 storage/memory/deletion policies, sometimes with a variable reordering in the middle and with variables of size 1; after every step each live node is audited against the documented reduction rules (duplicates, transparency, redundancy, quasi level skipping, identity singletons, child order/liveness, EV normalisation, full/sparse view and hash agreement, unique-table and node counts).",
             "audit rules taken from policies.h documentation; public inspection API"),
     "C03": ("5/C03", "PBT against a reference minterm matcher (evaluate + independent diagram expansion)",
             "Random minterm collections / single minterms / constants / variable functions in every forest kind and policy, compared at every assignment with a reference matcher, both through dd_edge::evaluate and through the harness' own expansion of the diagram.",
             "reference matcher in the harness; documented ordering precondition of buildFunctionMax/Min"),
     "C04": ("5/C04", "PBT, pointwise boolean model over forest pools with two distinct forests per rule",
-            "Random programs of union/intersection/difference/complement/cross whose operands and result live in independently chosen forests (two distinct forests per reduction rule), with warm compute tables; result and operands checked pointwise.",
+            "Random programs of union/intersection/difference/complement/cross whose operands and result live in independently chosen forests (two distinct forests per reduction rule), with warm compute tables, result edges that are fresh, an operand (in-place) or already in use; result and operands checked pointwise.",
             "boolean pointwise model"),
     "C05": ("5/C05", "PBT, pointwise scalar model incl. +infinity and documented errors",
-            "Random programs of arithmetic, comparisons, min/max, dist-min, dist-inc, user maps and range queries over MT int/real, EV+ and EV* forests; pointwise scalar semantics; invalid scalar points must raise the documented error.",
+            "Random programs of arithmetic, comparisons, min/max, dist-min, dist-inc, user maps and range queries over MT int/real, EV+ and EV* forests; pointwise scalar semantics, also for in-place results (x += y); invalid scalar points must raise the documented error and leave the result edge unchanged.",
             "scalar semantics of section 3.4; UNSPEC points skipped and counted; tolerance for reals"),
     "C06": ("5/C06", "stateful PBT with exact reference recount after every API call and drain points",
             "Random histories of constructions, operations, edge copies/assignments/releases, up to 70000 temporaries of one edge, cache clears, under optimistic/pessimistic/never deletion; after every step every live node's recorded incoming count must equal the harness' recount (parents + registered edges + nodes under construction), no live node may reference a reclaimed one, every held edge must still evaluate to its table; at drain points only nodes reachable from library-held registered edges may remain.",
@@ -33,28 +33,28 @@ CHECKS = {
             "Random functions of every forest kind iterated with/without masks and counted; the visited sequence must be exactly the non-default assignments under the mask, in lexicographic order, with the right values; exhausted iterators are false and throw INVALID_ITERATOR; cardinality as long/double/mpz and node/edge counts are compared with the harness' own counts.",
             "lexicographic order by level (unprimed before primed) as documented/used by the tests"),
     "C12": ("5/C12", "configuration-differential PBT over storage x memory-manager x deletion policies",
-            "One random history executed under 12 (quick, covering) / 36 (thorough) policy combinations: every run must match the model pointwise and pass the structural audit, and the handle-free canonical forms and node counts of all produced edges must be identical across runs.",
-            "canonical form is structure-only for EV* (the library compares float edge values with a 1e-6 tolerance)"),
+            "One random history executed under 12 (quick, covering) / 36 (thorough) policy combinations: every run must match the model pointwise and pass the structural audit, and the handle-free canonical forms and node counts of all produced edges must be identical across runs (programs with an EV* forest: values only).",
+            "EV* structure is not compared across policies (the library compares float edge values with a 1e-6 tolerance, so node sharing depends on what was reclaimed)"),
     "C08": ("5/C08", "PBT against an explicit BFS on the explicit transition graph; cross-algorithm edge identity",
             "Random event-built relations (every reduction rule) and initial sets (boolean / MT-int distance / EV+ distance); every offered algorithm, forward and backward, repeated calls in the same forests; results equal the BFS reachable set / shortest distances pointwise and different algorithms give the identical edge.",
             "explicit graph + BFS in the harness; MT-int 'unreachable' = any negative value; SATUR with non-identity relation forests is a recorded known finding and excluded by construction"),
     "C09": ("5/C09", "PBT against the explicit neighbour / sum-of-products definition",
-            "Pre/post images of boolean and distance-valued sets under relations of every reduction rule, and VM/MV products of int/real vectors and matrices, compared pointwise with the explicit definition.",
+            "Pre/post images of boolean and distance-valued sets (fully- and quasi-reduced, also in place) under relations of every reduction rule, and VM/MV products of int/real vectors and matrices, compared pointwise with the explicit definition.",
             "explicit definition in the harness; tolerance for reals scaled by the summed magnitudes"),
     "C13": ("5/C13", "stateful PBT: held edges re-evaluated under the new variable order + structural audit",
             "MT set/relation and EV+ set forests, all 8 heuristics and both swap methods, uniformly random target permutations, several held edges and warm compute tables; after reorderVariables() every held edge must evaluate to its table with minterm positions taken from the forest's new order, the forest must pass the structural audit, and other forests over the domain must be untouched.",
             "model indexed by variable, not level; RANDOM heuristic seeded through the guarded hook; LEVEL swap on relations is never performed by the library (recorded observation) and is not executed"),
     "C14": ("5/C14", "round-trip PBT through the exchange-file writer/reader",
-            "0-8 roots incl. shared sub-graphs, terminal and repeated roots written and read back into the same forest, another forest of the same kind with other policies, or a forest created from the file; same number/order of roots, equal tables, identical edges in the writing forest, audit + exact reference recount of the receiving forest.",
-            "in-memory streams; reals compared with tolerance; relation files from non-identity-reduced writers read via mdd_reader(domain) are a recorded known finding"),
+            "0-8 roots incl. shared sub-graphs, terminal and repeated roots written and read back into the same forest, another forest of the same kind with other policies, or a forest created from the file; same number/order of roots, equal tables, identical edges in the writing forest, multi-terminal real values equal to what the library held when writing to 1e-9 (the format prints 11 digits; 7-9 digit values are generated), audit + exact reference recount of the receiving forest.",
+            "in-memory streams; EV* reals compared to the 6 printed digits; relation files from non-identity-reduced writers read via mdd_reader(domain) are a recorded known finding"),
     "C15": ("5/C15", "PBT against the sorted member list",
-            "Random boolean sets incl. empty and full, converted to index sets: members in lexicographic order map to 0..n-1, others to +infinity; getElement(i) returns member i or false outside 0..n-1; stored cardinalities equal the true member counts in every node.",
+            "Random boolean sets incl. empty and full, over variables of size 1..20, converted to index sets: members in lexicographic order map to 0..n-1, others to +infinity; getElement(i) returns member i or false outside 0..n-1; stored cardinalities equal the true member counts in every node.",
             "lexicographic order by level"),
     "C16": ("5/C16", "fault-injecting stateful PBT: misuse calls spliced into valid histories, error-contract oracle + state audit",
-            "Valid histories over two domains and several forest kinds with misuse calls spliced in (cross-domain / set-relation / labeling / range mismatches, compute() with foreign result or operand edges, out-of-range values, zero divisors met at the last point of the recursion, bad variables, foreign minterms, getElement on non-index edges, exhausted iterators, edges of destroyed forests); each must raise MEDDLY::error with a documented code; afterwards held edges, structural audit, no-undercount recount and further valid operations are checked.",
+            "Valid histories over two domains and several forest kinds with misuse calls spliced in (cross-domain / set-relation / labeling / range mismatches, compute() with foreign result or operand edges, out-of-range values, zero divisors met at the last point of the recursion, bad variables, foreign minterms, getElement on non-index edges, exhausted iterators, edges of destroyed forests, operands / result in forests with different variable orders, initialize() on a running library under every compute-table style, division errors in EV* forests); each must raise MEDDLY::error with a documented code and leave the edge passed as the result (fresh, an operand, or in use) exactly as it was; afterwards held edges, structural audit, no-undercount recount and further valid operations are checked.",
             "expected codes per misuse class from error.h and the throw sites; arithmetic shortcut cases that absorb an invalid point are a recorded known finding (C05) and excluded"),
     "C17": ("5/C17", "stateful PBT over creation/destruction orders with detachment, identifier and survivor audits",
-            "Random orders of forest::destroy, domain::destroy, late forest creation and cleanup()/initialize() cycles with different compute-table settings, after operations that span forests; edges of destroyed forests must be inert and raise errors when used, identifiers never repeat, survivors are re-evaluated and audited with exact reference and cache recounts after every step.",
+            "Random orders of forest::destroy, domain::destroy, late forest creation and cleanup()/initialize() cycles with different compute-table settings, after operations that span forests; edges of destroyed forests must be inert and raise errors when used -- also edges kept alive across cleanup()/initialize(), when the new forests get the old identifiers --, identifiers never repeat, survivors are re-evaluated and audited with exact reference and cache recounts after every step.",
             "ASan for any touch of freed memory; four CT styles"),
     "C18": ("5/C18", "model-based PBT of the five memory managers against a reference allocator",
             "Random request/recycle sequences driven directly into each manager style; granted sizes, disjointness of live chunks, sentinel contents, handle uniqueness and isValidHandle are checked after every call.",
@@ -63,7 +63,7 @@ CHECKS = {
             "Every terminal integer, the values just outside, and every non-NaN float pattern are encoded and decoded; zero/false is the unique transparent handle; out-of-range integers raise VALUE_OVERFLOW; EV+ edges keep 64-bit values and +infinity.",
             "independent rounding model for reals (last mantissa bit cleared); two denormals whose rounding is 0 are excluded from the zero-handle sub-assertion and counted"),
     "C20": ("5/C20", "PBT: partitioned saturation vs explicit closure under the union, and vs monolithic reachability (edge identity)",
-            "1-8 random events fed to SATURATION_FORWARD by events and by levels with every splitting option, compared with the explicit closure under the union of the events and with the monolithic result in the same forest.",
+            "1-8 events (random guard/update pairs and guard-only families whose union is the identity on their top variable) fed to SATURATION_FORWARD by events and by levels with every splitting option, optionally in place and with a second compute() on the same operation, compared with the explicit closure under the union of the events and with the monolithic result in the same forest.",
             "explicit closure in the harness; identity-reduced relation forest (what the operation supports); forward direction"),
     "C10": ("5/C10", "PBT, conversion model + there-and-back identity",
             "Random functions copied between every pair of same-shape forest kinds; target compared pointwise with the converted source table; lossless round trips must give the identical edge.",
